@@ -4,7 +4,7 @@
   mode code|fixed|original   which iteration discipline (default: `code` = what Gen says the source does)
   beh <cb> <k> <acts>        the k-th invocation (0-based) of callback <cb> performs <acts> (default: nothing)
   ext <act>                  an operation performed from outside any callback
-  pkts <h,h,...>             feed these headers to the dispatcher; reply = the observable trace
+  pkts <h/len,h/len,...>     feed packets (header byte / payload length) to the dispatcher; reply = the observable trace
   match <port> <pm> <ch> <cm> <hdr>   the match condition alone
   acts: comma separated, `-` = none;  a:port:pm:ch:cm:cb  ad:cb:port:ch  ap:port:cb   (add header / header with
   default masks / port)   r:.. rd:.. rp:..  (remove)   A:cb  R:cb  (all-packet add/remove)   x  (raise)
@@ -33,6 +33,14 @@ def parseAct? (w : String) : Option Act :=
 
 def parseActs? (s : String) : Option (List Act) :=
   if s == "-" then some [] else (s.splitOn ",").mapM parseAct?
+
+/-- `hdr/len,hdr/len,...` -/
+def parsePkts? (s : String) : Option (List Pkt) :=
+  if s == "-" then some [] else
+  (s.splitOn ",").mapM fun w =>
+    match w.splitOn "/" with
+    | [h, l] => do pure { hdr := (← h.toNat?), len := (← l.toNat?) }
+    | _ => none
 
 def evCb : Ev → Option Nat
   | .call r => some r.cb
@@ -82,9 +90,9 @@ def step (d : DSt) (ws : List String) : DSt × String :=
       ({ d with st := { st' with trace := d.st.trace } }, if raised then "err value_error" else "ok")
     | none => (d, "bad-op")
   | ["pkts", hs] =>
-    match parseNatList? hs with
+    match parsePkts? hs with
     | some hs =>
-      let st' := run d.v (behOf d.tbl) d.st hs
+      let st' := runPkts d.v (behOf d.tbl) d.st hs
       let new := st'.trace.drop d.st.trace.length
       let out := render new false
       ({ d with st := st' }, "ok " ++ (if out.isEmpty then "-" else " ".intercalate out))
